@@ -558,3 +558,7 @@ def run(cx):
 
     # ---- C01-DISPATCH (shared with C07) ------------------------------------------------------
     c07.rule_account(cx, "C01")
+
+    # ---- C01-E2E: whole scripts, firmware trace = CPython trace ------------------------------------
+    from .. import e2e
+    e2e.rule_traces(cx, "C01-E2E", "c01", (pm, pm.func("parse")), "whole scripts (control flow with side-effecting conditions and bounds, short-circuit, break, early return, recursion, scoping, builtins, f-strings, tuple assignment, lists, prologue/loop phases): the script goes through parse() and emit() (partial evaluation), the emitted translation unit is parsed by clang and evaluated with C semantics on a scripted board for setup() and several loop() passes; the serial values, delays and pin writes must equal what CPython's execution of the same script leaves on recording stubs, for two sensor schedules (or the script is refused)")
